@@ -14,6 +14,7 @@ import os, re, sys, json, random, shutil, subprocess, argparse, threading, queue
 ROOT = os.path.dirname(os.path.dirname(os.path.abspath(__file__)))
 SRC = "rust/src"
 LANGNAME = "rust"
+STMT_DELETE = False
 FILE_PROPS = {
     "insert_operations.rs": ["C04", "C01", "C06", "C11"],
     "delete_operations.rs": ["C04", "C01", "C06", "C11"],
@@ -105,6 +106,23 @@ def mutants(files, rng, limit, lang="rust"):
                         continue
                     new = code[:m.start()] + rep + code[m.end():] + l[len(code):]
                     ms.append(dict(file=f, line=i + 1, old=l.strip(), new=new.strip(), text=new))
+    if STMT_DELETE:
+        # second family: delete one simple statement (a forgotten update of a link, counter, separator, flag)
+        ms = []
+        for f in files:
+            p = os.path.join("/repo", SRC, f)
+            for (i, l) in (code_lines(p) if lang == "rust" else code_lines_generic(p, lang)):
+                t = l.strip()
+                if lang == "rust":
+                    ok = t.endswith(";") and not t.startswith(("let ", "return", "use ", "pub ", "fn ", "break", "continue", "}", "type ", "const ", "static "))                         and "=>" not in t and t.count("(") == t.count(")") and t.count("{") == t.count("}")
+                elif lang == "py":
+                    ok = not t.startswith(("return", "def ", "class ", "if ", "elif ", "else", "for ", "while ", "try", "except", "raise", "import", "from ", "@", "with ", '"""', "pass", "yield"))                         and not t.endswith(":") and ("=" in t or t.endswith(")")) and t.count("(") == t.count(")") and t.count("[") == t.count("]")
+                else:
+                    ok = t.endswith(";") and not t.startswith(("return", "int ", "PyObject", "BPlusNode", "size_t", "static ", "break", "continue", "}", "uint", "char", "void ", "struct"))                         and t.count("(") == t.count(")")
+                if ok:
+                    indent = l[:len(l) - len(l.lstrip())]
+                    new = indent + ("pass" if lang == "py" else ("" if lang == "rust" else ";"))
+                    ms.append(dict(file=f, line=i + 1, old=t, new="<deleted>", text=new))
     rng.shuffle(ms)
     return ms[:limit] if limit else ms
 
@@ -191,12 +209,14 @@ def main():
     ap.add_argument("--limit", type=int, default=120)
     ap.add_argument("--files", default="")
     ap.add_argument("--lang", default="rust")
+    ap.add_argument("--stmt-delete", action="store_true", help="mutants = deletion of one simple statement")
     ap.add_argument("--seed", type=int, default=1)
     ap.add_argument("--out", default=os.path.join(ROOT, "build", "mutsweep.json"))
     ap.add_argument("--rerun-escaped", default="", help="result file of an earlier sweep: re-run only its ESCAPED mutants")
     ap.add_argument("--props", default="", help="with --rerun-escaped: the checks to run (comma separated) instead of the per-file list")
     a = ap.parse_args()
-    global SRC, LANGNAME
+    global SRC, LANGNAME, STMT_DELETE
+    STMT_DELETE = a.stmt_delete
     LANGNAME = a.lang
     SRC = LANG[a.lang]["src"]
     if LANG[a.lang]["files"]:
